@@ -11,3 +11,6 @@ from contracts import commitpath as cp
 register(Unit(P, "CARRY/create_manifest_file-entries", cp.h_manifest_entries, functions=[f"{cp.FMOD}:FileManager.create_manifest_file"], replay=S._replay_carry))
 register(Unit(P, "CARRY/read_manifest_file-entries", cp.h_manifest_read_entries, functions=[f"{cp.FMOD}:FileManager.read_manifest_file"], replay=S._replay_carry))
 register(Unit(P, "DELETE-EXACT/_commit_file_ops", cp.h_commit_file_ops("both"), functions=[f"{cp.TX}:Transaction._commit_file_ops"], replay=S._replay_carry))
+
+from contracts import helpers as _HLP  # noqa: E402
+_HLP.register_under("C15", ["HELPER/validate_data_files", "HELPER/validate_file_exists"])
